@@ -481,9 +481,14 @@ func (p *parser) parseValueExpression() *ValueExpression {
 		}
 	} else if tok.Type == Int {
 		p.assert(len(tok.Value) < 19, tok, "int literal is too large: %s", tok)
-		i, err := strconv.Atoi(tok.Value)
+		// The lexer hands us octal literals (0o17 or 017) as digits with a leading zero.
+		base := 10
+		if strings.HasPrefix(strings.TrimPrefix(tok.Value, "-"), "0") {
+			base = 8
+		}
+		i, err := strconv.ParseInt(tok.Value, base, 64)
 		p.assert(err == nil, tok, "invalid int value %s", tok) // Theoretically the lexer shouldn't have fed us this...
-		ve.Int = i
+		ve.Int = int(i)
 		ve.IsInt = true
 		p.endPos = p.l.Next().EndPos()
 	} else if tok.Value == "False" {
